@@ -365,9 +365,22 @@ func checkTiling(w *world, c geneCase, model []span) *vlib.Failure {
 	if u5.Len()+cds.Len()+u3.Len() != L {
 		return vlib.Failf("utr-cds-tiling", "lengths %d+%d+%d != %d", u5.Len(), cds.Len(), u3.Len(), L)
 	}
-	for _, f := range []feat.Feature{u5, cds, u3} {
+	tBase, tRef := feat.BaseOrientationOf(w.t)
+	for i, f := range []feat.Feature{u5, cds, u3} {
 		if f.Location() != feat.Feature(w.t) {
 			return vlib.Failf("utr-cds-tiling", "region not located on the transcript")
+		}
+		// the regions lie forward on their transcript: through them the orientations compose as
+		// through the transcript itself
+		name := []string{"5'UTR", "CDS", "3'UTR"}[i]
+		if o, ok := f.(feat.Orienter); !ok || o.Orientation() != feat.Forward {
+			return vlib.Failf("region-orientation", "%s (base orientation %d, CDS [%d,%d) of %d) is not oriented forward on its transcript", name, base, cs, ce, L)
+		}
+		if got, ref := feat.BaseOrientationOf(f); got != tBase || ref != tRef {
+			return vlib.Failf("region-orientation", "BaseOrientationOf(%s) = %d, %v; that of its transcript is %d, %v", name, got, ref, tBase, tRef)
+		}
+		if got := feat.OrientationWithin(f, w.t); got != feat.Forward {
+			return vlib.Failf("region-orientation", "OrientationWithin(%s, transcript) = %d", name, got)
 		}
 	}
 	if w.ct.UTR5start() != u5.Start() || w.ct.UTR5end() != u5.End() || w.ct.UTR3start() != u3.Start() || w.ct.UTR3end() != u3.End() {
